@@ -744,15 +744,37 @@ func poolRunCoreCase(id int, lg *vlog, rep *vreport, z *poolSanitizer, rng *vrng
 // duplication and reordering, recycles `recovered` the way kcpInput does, and checks the
 // census after every packet.  The branch taken by decode() is read off the decoder's state
 // before / after and logged for the model replay.
+// layouts of sender / receiver that differ; the first block keeps the GROUP SIZE and changes only
+// the data/parity ratio, the second changes the size as well
+var poolFecPairs = [][4]int{
+	{3, 1, 2, 2}, {2, 2, 3, 1}, {2, 2, 1, 3}, {1, 3, 2, 2}, {10, 3, 11, 2}, {11, 2, 10, 3}, {5, 2, 4, 3}, {4, 3, 5, 2}, {3, 2, 2, 3},
+	{3, 1, 5, 2}, {10, 3, 3, 1}, {2, 1, 3, 3}, {5, 2, 2, 2},
+}
+
 func poolRunFecCase(id int, lg *vlog, rep *vreport, z *poolSanitizer, rng *vrng, npkts int) {
+	// mode 0: sender and receiver agree; mode 1: they differ from the first packet on;
+	// mode 2: they agree, packets are parked under loss, then the sender changes its layout
+	mode := rng.pick(0, 1, 1, 2, 2)
 	ds, ps := rng.pick(1, 2, 3, 5, 10), rng.pick(1, 2, 3)
-	enc := newFECEncoder(ds, ps, 0)
+	ds2, ps2 := ds, ps
+	if mode != 0 {
+		pr := poolFecPairs[rng.intn(len(poolFecPairs))]
+		ds, ps, ds2, ps2 = pr[0], pr[1], pr[2], pr[3]
+	}
 	dec := newFECDecoder(ds, ps)
-	loss := rng.pick(0, 10, 30)
+	enc := newFECEncoder(ds, ps, 0)
+	if mode == 1 {
+		enc = newFECEncoder(ds2, ps2, 0)
+	}
+	lossy := rng.pick(10, 20, 30)
+	if mode == 0 {
+		lossy = rng.pick(0, 10, 30)
+	}
 	var ops []string
 	z.mu.Lock()
 	z.ctx = func() any {
-		return map[string]any{"test": "TestVerifC15Buffers/fec", "seed": vSeed(), "case": id, "ds": ds, "ps": ps, "loss": loss, "ops": append([]string(nil), ops...)}
+		return map[string]any{"test": "TestVerifC15Buffers/fec", "seed": vSeed(), "case": id, "mode": mode,
+			"receiver": [2]int{ds, ps}, "sender": [2]int{ds2, ps2}, "loss": lossy, "ops": append([]string(nil), ops...)}
 	}
 	z.mu.Unlock()
 	g0, p0 := z.counts()
@@ -819,6 +841,19 @@ func poolRunFecCase(id int, lg *vlog, rep *vreport, z *poolSanitizer, rng *vrng,
 		case dec.dataShards != dsBefore || dec.parityShards != psBefore:
 			line = "D retune"
 			rep.Distribution["fec_retune"]++
+			held := 0
+			for _, n := range before {
+				held += n
+			}
+			if held > 0 {
+				rep.Distribution["fec_retune_with_packets_parked"]++
+			}
+			if dsBefore+psBefore == dec.dataShards+dec.parityShards {
+				rep.Distribution["fec_retune_same_group_size"]++
+				if held > 0 {
+					rep.Distribution["fec_retune_same_group_size_with_packets_parked"]++
+				}
+			}
 		case gated || dupBefore:
 			line = "D drop"
 		default:
@@ -854,13 +889,28 @@ func poolRunFecCase(id int, lg *vlog, rep *vreport, z *poolSanitizer, rng *vrng,
 			z.mu.Unlock()
 		}
 	}
-	switchAt := -1
-	if rng.chance(35) {
-		switchAt = npkts/3 + rng.intn(npkts/3+1)
+	// phases of the history, in data packets: [from, to) with a loss rate
+	quiet := (ds2 + ps2 + ds + ps) * (2 + rng.intn(3)) // long enough for the period detector to see whole pulses
+	switchAt, quietFrom := -1, 0
+	switch mode {
+	case 1:
+		quietFrom = rng.intn(2 * (ds + ps)) // a few packets are parked under the receiver's own layout first
+	case 2:
+		switchAt = (ds + ps) * (3 + rng.intn(8))
+		quietFrom = switchAt
 	}
-	for i := 0; i < npkts; i++ {
-		if i == switchAt { // the peer changes its FEC parameters: the decoder re-tunes and recycles what it parked
-			enc = newFECEncoder(rng.pick(2, 3, 4), rng.pick(1, 2), 0)
+	total := quietFrom + quiet + npkts
+	for i := 0; i < total; i++ {
+		if i == switchAt {
+			// the peer changes its layout; its sequence ids go on, aligned to a group of the new size
+			e2 := newFECEncoder(ds2, ps2, 0)
+			ss2 := uint32(ds2 + ps2)
+			e2.next = (enc.next/ss2 + 1) * ss2 % e2.paws
+			enc = e2
+		}
+		loss := lossy
+		if mode != 0 && i >= quietFrom && i < quietFrom+quiet && rng.chance(90) {
+			loss = 0
 		}
 		body := make([]byte, fecHeaderSizePlus2+1+rng.intn(60))
 		for j := fecHeaderSizePlus2; j < len(body); j++ {
@@ -876,8 +926,8 @@ func poolRunFecCase(id int, lg *vlog, rep *vreport, z *poolSanitizer, rng *vrng,
 			if rng.chance(loss) {
 				continue
 			}
-			if rng.chance(8) {
-				pending = append(pending, p) // delayed
+			if loss > 0 && rng.chance(8) {
+				pending = append(pending, p) // delayed: may arrive after a re-tune, as a late packet of a stale group
 				continue
 			}
 			feed(p)
@@ -885,15 +935,19 @@ func poolRunFecCase(id int, lg *vlog, rep *vreport, z *poolSanitizer, rng *vrng,
 				feed(p) // duplicate
 			}
 		}
-		if len(pending) > 0 && rng.chance(30) {
+		if len(pending) > 0 && rng.chance(12) {
 			j := rng.intn(len(pending))
 			feed(pending[j])
 			pending = append(pending[:j], pending[j+1:]...)
 		}
 	}
+	for _, p := range pending {
+		feed(p)
+	}
+	rep.Distribution[fmt.Sprintf("fec_mode_%d", mode)]++
 	lg.printf("E\n")
 	rep.Cases++
-	rep.Distribution[fmt.Sprintf("fec_%d_%d", ds, ps)]++
+	rep.Distribution[fmt.Sprintf("fec_rx%d+%d_tx%d+%d", ds, ps, ds2, ps2)]++
 }
 
 // ------------------------------------------------------------------------------- in-memory network
@@ -1430,10 +1484,11 @@ func TestVerifC15Buffers(t *testing.T) {
 	coreCases := rep.Cases
 
 	// 2. raw FEC decoder
-	nfec := 40
+	nfec := 120
 	if vThorough() {
-		nfec = 800
+		nfec = 1500
 	}
+	nfec = vEnvInt("VERIF_POOL_FEC_CASES", nfec)
 	for i := 0; i < nfec; i++ {
 		z.newEpoch()
 		poolRunFecCase(100000+i, lg, rep, z, rng, 60+rng.intn(200))
